@@ -24,6 +24,7 @@ type Goroutine struct {
 	fnv     Value
 	args    []Value
 	exited  chan struct{}
+	curFr   *frame
 }
 
 const (
@@ -373,7 +374,7 @@ func (c *Chan) canRecv() bool {
 // trySend performs a send if possible right now.
 func (g *Goroutine) trySend(fr *frame, c *Chan, v Value) bool {
 	if c.closed {
-		panic(&goPanic{val: g.w.prog.runtimeError("send on closed channel"), site: fr.site(), msg: "send on closed channel", runtime: true})
+		panic(&goPanic{val: g.w.prog.runtimeError("send on closed channel"), site: fr.stableSite(), msg: "send on closed channel", runtime: true})
 	}
 	if r := firstActive(&c.recvq); r != nil {
 		c.recvq = c.recvq[1:]
@@ -425,7 +426,7 @@ func (g *Goroutine) chanSend(fr *frame, cv Value, v Value) {
 	g.block("chan send", func() bool { return w.done || c.closed })
 	if !w.done && c.closed {
 		w.done = true
-		panic(&goPanic{val: g.w.prog.runtimeError("send on closed channel"), site: fr.site(), msg: "send on closed channel", runtime: true})
+		panic(&goPanic{val: g.w.prog.runtimeError("send on closed channel"), site: fr.stableSite(), msg: "send on closed channel", runtime: true})
 	}
 }
 
@@ -450,11 +451,11 @@ func (g *Goroutine) chanRecv(fr *frame, cv Value) (Value, bool) {
 
 func (g *Goroutine) chanClose(fr *frame, cv Value) {
 	if cv.R == nil {
-		panic(&goPanic{val: g.w.prog.runtimeError("close of nil channel"), site: fr.site(), msg: "close of nil channel", runtime: true})
+		panic(&goPanic{val: g.w.prog.runtimeError("close of nil channel"), site: fr.stableSite(), msg: "close of nil channel", runtime: true})
 	}
 	c := cv.R.(*Chan)
 	if c.closed {
-		panic(&goPanic{val: g.w.prog.runtimeError("close of closed channel"), site: fr.site(), msg: "close of closed channel", runtime: true})
+		panic(&goPanic{val: g.w.prog.runtimeError("close of closed channel"), site: fr.stableSite(), msg: "close of closed channel", runtime: true})
 	}
 	c.closed = true
 	// receivers get zero values
